@@ -33,16 +33,16 @@ Theorem C12_no_trade_left_pending : forall cs es, np (lrun (lstate0 cs) es).
 Proof. exact lrun_np. Qed.
 Print Assumptions C12_no_trade_left_pending.
 
-(* simulated execution (Model/SimLoop.v exec_pkg): whatever the simulated exchange answers to a cancel / update / replace package - SUCCESS,
-   FAILURE because the market is no longer OPEN, a failed placement leg, an order that completed inside the latency window - the order of the
-   package is Executable or Execution complete afterwards *)
-Theorem C12_sim_request_settles : forall tb cf now s p m b o,
+(* simulated execution (Model/SimLoop.v exec_pkg): whatever the simulated exchange answers to a place / cancel / update / replace package -
+   SUCCESS, FAILURE because the market is no longer OPEN, a failed placement leg, an order that completed inside the latency window - the order
+   of the package is Executable or Execution complete afterwards (a simulated placement always decides: never left Pending) *)
+Theorem C12_sim_package_settles : forall tb cf now s p m b o,
   SimLoop.get_market (SimLoop.pk_market p) (SimLoop.s_markets s) = Some m -> SimLoop.mk_book m = Some b ->
-  SimLoop.get_order (SimLoop.pk_order p) (SimLoop.mk_orders m) = Some o -> Sim.so_status o <> SViolation -> SimLoop.pk_kind p <> SimLoop.KPlace ->
+  SimLoop.get_order (SimLoop.pk_order p) (SimLoop.mk_orders m) = Some o -> Sim.so_status o <> SViolation ->
   exists m' o', SimLoop.get_market (SimLoop.pk_market p) (SimLoop.s_markets (SimLoop.exec_pkg tb cf now s p)) = Some m' /\
                 SimLoop.get_order (SimLoop.pk_order p) (SimLoop.mk_orders m') = Some o' /\ SimPkgP.final_status o'.
-Proof. exact SimPkgP.exec_pkg_request_settles. Qed.
-Print Assumptions C12_sim_request_settles.
+Proof. exact SimPkgP.exec_pkg_settles. Qed.
+Print Assumptions C12_sim_package_settles.
 
 (* (2) retry budget: 1 + MAX_RETRIES calls at most; answered iff the errors stop within the budget *)
 Theorem C12_retry_budget : forall errors, 0 <= errors ->
